@@ -68,7 +68,7 @@ def _one(ctx, e2e, i, rng, interp, system, tmin, dt, comp, case_id, large=False)
         ds = WF.gen_dataset(rng, system=system if use_system else "triclinic", nv=nv, nq=ctx.pick(4, 6) if large else int(rng.integers(1, 5)),
                             natoms=ctx.pick(10, 12) if large else int(rng.integers(1, 5)),
                             data_class=data_class, components="all-nonzero" if comp != "needed" else "needed",
-                            energy_class="noncubic" if i % 2 else "bm3")
+                            energy_class="noncubic" if i % 2 else "bm3", zero_weight=(i % 5 == 2))
         cfg = WF.gen_settings(rng, ds, interpolator=interp, order=order, tmin=tmin, dt=dt, nt=ctx.pick(996, 1996) if large else int(rng.integers(2, 13)),
                               ntv=ctx.pick(40, 81) if large else int(rng.integers(8, 41)),
                               use_system=use_system, eos_order=[3, 2, 4, 5, 3][i % 5] if nv > 6 else 3)
@@ -78,7 +78,8 @@ def _one(ctx, e2e, i, rng, interp, system, tmin, dt, comp, case_id, large=False)
         sample = {"interpolator": interp, "order": order, "system": ds.system if use_system else None, "T_MIN": tmin, "DT": dt,
                   "NT": cfg["qha"]["settings"]["NT"], "NTV": cfg["qha"]["settings"]["NTV"], "volumes": nv, "nq": ds.nq, "atoms": ds.natoms,
                   "components_in_table": ["c%d%d" % T.VOIGT21[n] for n in ds.columns], "data": data_class,
-                  "eos_order": cfg["qha"]["settings"]["order"], "E(V)": ds.energy_class}
+                  "eos_order": cfg["qha"]["settings"]["order"], "E(V)": ds.energy_class,
+                  "q_point_weights": [float(w) for w in ds.weights]}
         try:
             p_lo, p_hi, _ = WF.probe_pressure_range(ds, cfg, wd)
         except Exception as exc:
